@@ -693,7 +693,9 @@ C01Viol(c, q) ==
             k == KeyOf(cl, rid)
             nk == Get(o.norm, k, k)
             a == AnnOf(o.ann, nk)
-            kf == IF cl.taintU THEN "KF-U" ELSE IF cl.taintG THEN "KF-G" ELSE IF cl.taintW THEN "KF-W" ELSE ""
+            \* KF-U, second part: a resource that was marked unsent (rightly or not) is re-sent with the snapshot taken when
+            \* it was loaded - the subscription's copy is not updated by events
+            kf == IF cl.taintU \/ rid \in cl.unsent THEN "KF-U" ELSE IF cl.taintG THEN "KF-G" ELSE IF cl.taintW THEN "KF-W" ELSE ""
         IN IF e.k \notin {"m", "c"} \/ rid \in cl.exempt THEN {}
            ELSE IF a.st = "del" THEN {}
            ELSE IF a.st = "un" THEN {V("C01", "client " \o c \o " holds " \o rid \o " but the gateway no longer tracks it (no subscription / never announced)", kf)}
